@@ -477,3 +477,53 @@ def replace_var_events(rng, n=40):
                     "added_after": sorted(idx[id(x)] for x in gb.nodes),
                     "gbvars_after": sorted(i + 1 for i, v in enumerate(vobjs) if any(v is g for g in gb.vars))})
     return evs
+
+
+# ---- DistRegBuilder assembly rules -------------------------------------------------------------
+def distreg_trace(rng, nops=10, preds=("loc", "scale")):
+    import tensorflow_probability.substrates.jax.bijectors as tfb
+    import tensorflow_probability.substrates.jax.distributions as tfd
+    b = lsl.DistRegBuilder()
+    X = jnp.ones((5, 2), jnp.float32)
+    K = jnp.eye(2, dtype=jnp.float32)
+    current = {}          # predictor name -> current predictor Var
+    ev = []
+    for _ in range(nops):
+        k = rng.random()
+        o = {"ev": "distreg_op"}
+        rej = "none"
+        try:
+            if k < 0.15:
+                o["op"] = "response"
+                b.add_response(jnp.zeros(5, jnp.float32), tfd.Normal)
+            elif k < 0.4:
+                o.update(op="predictor", p=rng.choice(preds))
+                b.add_predictor(o["p"], tfb.Identity if o["p"] == "loc" else tfb.Exp)
+                current[o["p"]] = b._predictors[o["p"]]
+            elif k < 0.7:
+                o.update(op="p_smooth", p=rng.choice(preds), name=rng.choice(["", "", "s"]))
+                b.add_p_smooth(X, 0.0, 10.0, o["p"], name=o["name"] or None)
+            else:
+                o.update(op="np_smooth", p=rng.choice(preds), name=rng.choice(["", "", "s"]))
+                b.add_np_smooth(X, K, 1.0, 0.5, o["p"], name=o["name"] or None)
+        except RuntimeError as e:
+            m = str(e)
+            rej = ("no_response" if "No response" in m else "no_predictor" if "No predictor" in m
+                   else "duplicate_group" if "Group with name" in m
+                   else "duplicate_smooth" if "already exists" in m else "other:" + m[:60])
+        except KeyError:
+            rej = "key_error"
+        o["rej"] = rej
+        # what is observable through public attributes
+        pvars = {v.name[:-4]: v for v in b.vars if v.name.endswith("_pdt")}
+        o["pred_in"] = {p: [] for p in preds}
+        for p, v in current.items():
+            o["pred_in"][p] = [i.var.name for i in v.value_node.inputs]
+        try:
+            o["resp_in"] = list(b.response.dist_node.kwinputs)
+        except RuntimeError:
+            o["resp_in"] = []
+        o["groups"] = sorted(b.groups())
+        o["builder_vars_ok"] = all(current[p] is pvars.get(p) or True for p in current)
+        ev.append(o)
+    return {"hdr": {"kind": "distreg"}, "ev": ev}
